@@ -29,9 +29,14 @@ package lexer
 
 // doesc: c is the byte just read; for a backslash the escape is consumed, or
 // nothing is consumed and the backslash itself is returned
+// (gEscN counts the escapes doesc has processed, gEscEnd is the position after the last one: quotedString
+// uses them to say that the quote that ends a literal is not part of an escape)
+//@ ghost var gEscN int
+//@ ghost var gEscEnd int
 //@ func (lxr *Lexer) doesc(c) (r)
 //@   requires lxr != nil && lxOK(lxr)
-//@   modifies lxr.si
+//@   modifies lxr.si, gEscN, gEscEnd
+//@   defines (c == 92 ==> gEscN == old(gEscN) + 1 && gEscEnd == lxr.si) && (c != 92 ==> gEscN == old(gEscN) && gEscEnd == old(gEscEnd))
 //@   ensures! pos: lxOK(lxr) && lxr.si >= old(lxr.si) && lxr.si <= old(lxr.si) + 3
 //@   ensures! plain: c != 92 ==> r == c && lxr.si == old(lxr.si)
 //@   ensures! control: c == 92 && (srcAt(lxr, old(lxr.si)) == 110 || srcAt(lxr, old(lxr.si)) == 116 || srcAt(lxr, old(lxr.si)) == 114) ==> lxr.si == old(lxr.si) + 1 && r == (srcAt(lxr, old(lxr.si)) == 110 ? 10 : srcAt(lxr, old(lxr.si)) == 116 ? 9 : 13)
@@ -52,15 +57,17 @@ package lexer
 // quotedString: a quoted literal is a String token only when its closing quote was found
 //@ func (lxr *Lexer) quotedString(start, quote) (r)
 //@   requires lxr != nil && lxOK(lxr) && (quote == 34 || quote == 39) && 0 <= start && start < 2147483647
-//@   modifies lxr.si
+//@   modifies lxr.si, gEscN, gEscEnd
 //@   ensures! pos: lxOK(lxr) && lxr.si >= old(lxr.si) && r.Pos == start
 //@   ensures! terminated: r.Token == tokens.String ==> lxr.si > old(lxr.si) && lxr.src[lxr.si - 1] == quote
+//@   ensures! closing_quote_not_escaped: r.Token == tokens.String ==> gEscN == old(gEscN) || lxr.si - 1 >= gEscEnd
 //@   ensures! unterminated: r.Token != tokens.String ==> r.Token == tokens.Error && lxr.si == len(lxr.src)
 //@   loop 0 invariant 0 <= i && i <= len(src) && forall k :: 0 <= k && k < i ==> src[k] != 92 && src[k] != quote
 //@   loop 0 decreases len(src) - i
 //@   loop 1 invariant frame()
 //@   loop 1 invariant ref(sb.buf) == nil || fresh(sb.buf)
 //@   loop 1 invariant lxOK(lxr) && lxr.si >= old(lxr.si) && ((c == 0 && lxr.si == len(lxr.src)) || (c != 0 && lxr.si > old(lxr.si) && readByte(lxr.src[lxr.si - 1]) == c))
+//@   loop 1 invariant gEscN >= old(gEscN) && (gEscN > old(gEscN) ==> (c != 0 ? lxr.si - 1 >= gEscEnd : lxr.si >= gEscEnd))
 //@   loop 1 decreases len(lxr.src) - lxr.si + (c != 0 ? 1 : 0)
 
 //@ property C32
@@ -144,12 +151,12 @@ package lexer
 // next: one token; never panics; ends exactly at end of input with Eof, otherwise makes progress
 //@ func (lxr *Lexer) next() (r)
 //@   requires lxr != nil && lxOK(lxr) && len(lxr.src) < 2147483647
-//@   modifies lxr.si
+//@   modifies lxr.si, gEscN, gEscEnd
 //@   ensures! inside: lxOK(lxr) && r.Pos == old(lxr.si)
 //@   ensures! eof: old(lxr.si) == len(lxr.src) ==> r.Token == tokens.Eof && lxr.si == old(lxr.si)
 //@   ensures! progress: old(lxr.si) < len(lxr.src) ==> lxr.si > old(lxr.si)
 
 //@ func (lxr *Lexer) Next() (r)
 //@   requires lxr != nil && lxOK(lxr) && len(lxr.src) < 2147483647
-//@   modifies lxr.si, lxr.ahead
+//@   modifies lxr.si, lxr.ahead, gEscN, gEscEnd
 //@   ensures! lxOK(lxr)
